@@ -737,6 +737,18 @@ func (e *Engine) evalCall(x *Expr, se *SpecEnv) Val {
 			return mkBool(And(Not(Eq(v.L[0], IntLit(0))), e.implementsTerm(at, v.L[0])))
 		}
 		return e.dynCall(mname, v, resolve(msig.Results().At(0).Type(), se.env))
+	case "timerarg":
+		// timerarg(): the duration passed to the (first) time.NewTimer call on this path, or -1 when there is none
+		log := se.st.actionLog
+		if se.cur != nil {
+			log = se.cur.actionLog
+		}
+		for _, a := range log {
+			if a.Kind == "TimerNew" && len(a.Args) > 0 {
+				return mkInt(e.toInt(a.Args[0]))
+			}
+		}
+		return mkInt(IntLit(-1))
 	case "loglenbefore":
 		// loglenbefore(f, i): how many calls of f had been logged when action i was performed
 		it := e.evalSpec(x.Args[1], se).L[0]
